@@ -42,6 +42,18 @@ fn generic_text(g: &parse::Generic) -> String {
         G::WhereBounded { name, bounds } => format!("W( [ {}] [ {}] )", relex(name), sorted(bounds.iter().map(ty_text).collect())),
     }
 }
+/// derive/src/shared.rs: what the templates read off an attribute list (coq/parse/ParseInterp.v)
+fn interp_text(a: &[parse::Attribute]) -> String {
+    use shared::{CollectionStrategy as C, MapStrategy as M};
+    let ms = |m: &M| match m { M::KeyOnly => "key_only", M::KeyAndValue => "key_and_value" };
+    let coll = match shared::attrs_collection_type(a) { None => "-".to_string(), Some(C::OrderedArrayLike) => "ordered".to_string(), Some(C::UnorderedArrayLikeHash) => "unordered".to_string(),
+        Some(C::UnorderedMapLikeHash(m)) => format!("map:{}", ms(&m)) };
+    let map = match shared::attrs_map_strategy(a) { None => "-".to_string(), Some(m) => ms(&m).to_string() };
+    let (local, skip_s, name) = shared::attrs_setter(a);
+    let expose = match shared::attrs_expose(a) { None => "-".to_string(), Some(None) => "yes".to_string(), Some(Some(n)) => format!("as:{}", esc(&n)) };
+    format!("skip={} recurse={} all_setters={} coll={} map={} setter={} skip_setter={} setter_name={} expose={}", shared::attrs_skip(a) as u8, shared::attrs_recurse(a) as u8,
+        shared::attrs_all_setters(a) as u8, coll, map, local as u8, skip_s as u8, name.as_deref().map(esc).unwrap_or_else(|| "-".to_string()), expose)
+}
 fn struct_text(s: &parse::Struct) -> String {
     format!("name={} named={} attrs=[ {}] generics=[ {}] fields=[ {}]",
         s.name.as_deref().map(esc).unwrap_or_else(|| "-".to_string()), s.named as u8, attrs_text(&s.attributes),
@@ -132,7 +144,11 @@ pub fn dump_parse(input: TokenStream) -> TokenStream {
     let parsed = std::panic::catch_unwind(|| parse::parse_data(input));
     match &parsed {
         Err(_) => text.push_str(&format!("ITEM {} PARSED PANIC\n", sname)),
-        Ok(Data::Struct(s)) => text.push_str(&format!("ITEM {} PARSED {}\n", sname, struct_text(s))),
+        Ok(Data::Struct(s)) => {
+            text.push_str(&format!("ITEM {} PARSED {}\n", sname, struct_text(s)));
+            text.push_str(&format!("ITEM {} INTERP {}\n", sname, interp_text(&s.attributes)));
+            for (k, f) in s.fields.iter().enumerate() { text.push_str(&format!("ITEM {} FINTERP{} {}\n", sname, k, interp_text(&f.attributes))); }
+        }
         Ok(_) => text.push_str(&format!("ITEM {} PARSED ENUM\n", sname)),
     }
     match parsed {
